@@ -134,8 +134,8 @@ fn binary_order(_tier: Tier, _seed: u64, idx: u64, _of: u64, stats: &mut Stats) 
 pub fn def() -> PropDef {
     let mut d = PropDef::new("C16", "generated inputs (ledger generator: several affiliates, global splits, early loss sales, optional total-costs) whose securities get opening positions (fractional, zero-cost, zero shares) given as SYM:n:c strings, plus opening positions of symbols absent from the input; compared with the same rows preceded by a Buy of n shares at price 0 with commission c by the default affiliate 400 days before the first row: every cell of every row of the original input, footers and the aggregate table must agree (money within 1e-9). Malformed specifications (wrong arity, empty symbol, non-numeric, negative) must be rejected, at binary level before any file is opened. Non-trivial = an opening position on a security with >= 2 affiliates, or with a split for all affiliates, or whose default affiliate has no rows; or a malformed specification. Distinct = distinct case content.");
     d.assumptions = vec!["zero shares is compared with 'no purchase' (a Buy of zero shares is not a valid row)", "total-costs tables are not compared (the prepended purchase adds a dated row by construction)"];
-    d.subs.push(Box::new(Sub::<BaseCase> { name: "opening", cases_quick: 60_000, cases_thorough: 500_000, strategy: Box::new(strategy), to_json: BaseCase::to_json, from_json: BaseCase::from_json, check }));
-    d.subs.push(Box::new(Sub::<BadSpec> { name: "malformed", cases_quick: 12_000, cases_thorough: 50_000, strategy: Box::new(bad_strategy), to_json: |c| json::object! { specs: c.specs.clone() }, from_json: |v| Some(BadSpec { specs: v["specs"].members().filter_map(|x| x.as_str().map(|s| s.to_string())).collect() }), check: check_bad }));
+    d.subs.push(Box::new(Sub::<BaseCase> { name: "opening", cases_quick: 60_000, cases_thorough: 1_200_000, strategy: Box::new(strategy), to_json: BaseCase::to_json, from_json: BaseCase::from_json, check }));
+    d.subs.push(Box::new(Sub::<BadSpec> { name: "malformed", cases_quick: 12_000, cases_thorough: 200_000, strategy: Box::new(bad_strategy), to_json: |c| json::object! { specs: c.specs.clone() }, from_json: |v| Some(BadSpec { specs: v["specs"].members().filter_map(|x| x.as_str().map(|s| s.to_string())).collect() }), check: check_bad }));
     d.extra = Some(binary_order);
     d
 }
